@@ -14,7 +14,7 @@ decision x strategy x failure-site matrix; its proof is pending.
 -/
 namespace Vivid.ActorSys
 
-/-- Targets of a decision as `onSupervise` computes them. -/
+/-- Targets of a decision as `onSuperviseDecide` computes them. -/
 def targetsOf (s : Sys) (sup failed : Cid) : List Cid :=
   if (s.ctx sup).strat = 0 ∨ (s.ctx sup).strat = 1 then [failed] else (s.ctx sup).children
 
